@@ -4,6 +4,7 @@ import (
 	"encoding/binary"
 	"errors"
 	"fmt"
+	"math"
 	"strings"
 )
 
@@ -212,6 +213,10 @@ func (a ArchiveInfo) validate() error {
 	}
 	if a.numberOfPoints <= 0 {
 		return errors.New("number of points must be positive")
+	}
+	// NOTE: MaxRetention() is a Duration (int32), check it does not overflow.
+	if int64(a.secondsPerPoint)*int64(a.numberOfPoints) > math.MaxInt32 {
+		return errors.New("retention (seconds per point times number of points) must fit in 31 bits")
 	}
 	return nil
 }
